@@ -153,12 +153,8 @@ extern int vp_trace_on;
 
 static void vp_note_err(int e)
 {
-  for (int i = 0; i < VP_MAXERR; i++) {
-    if (i == vp_nerr) {
-      vp_err_seen[i] = e;
-    }
-  }
   if (vp_nerr < VP_MAXERR) {
+    vp_err_seen[vp_nerr] = e;
     vp_nerr++;
   }
 }
@@ -631,7 +627,7 @@ void vp_new_child_params(int c)
   if (vp_bool()) {
     vp_c_nat_status[c] = vp_choice(0, 255) << 8;
   } else {
-    int sig = vp_choice(1, 127);
+    int sig = vp_choice(1, 64); /* terminating signals; 0x7f would encode "stopped" */
     int core = vp_choice(0, 1);
     vp_c_nat_status[c] = sig | (core << 7);
   }
